@@ -21,7 +21,7 @@ CLAIMED = {
         text='Theorems (Lean 4, all histories/arguments/user clauses): find() designates exactly the selected candidate '
              '(selected_iff_find); a call is accepted iff that candidate exists and is not a forbid (C01_accept_iff); otherwise exactly '
              'one report, fatal, no action evaluated, no count changed (C01_reject). Tie to /repo: hand-written executable model + '
-             'correspondence check (exhaustive small scopes + seeded random scripts run on the real library and on the model). Second tie (translator): trompeloeil::find, call_matcher::run_actions, can_be_called regenerated from /repo\'s current source by tools/cxx2lean.py on every run and proved equal to the model definitions (find_eq/find_tie, run_actions_order + run_actions_sem: the state after interpreting the translated statement trace is World.runActions). Re-entrant side effects: Model/Nested.lean (callN), state = the same calls in sequence (callN_world_is_run). Every documented spelling of REQUIRE/ALLOW/FORBID_CALL (C++14, variadic _V, named, unnamed) is run by harness/spelling.',
+             'correspondence check (exhaustive small scopes + seeded random scripts run on the real library and on the model). Second tie (translator): trompeloeil::find, call_matcher::run_actions, can_be_called regenerated from /repo\'s current source by tools/cxx2lean.py on every run and proved equal to the model definitions (find_eq/find_tie, run_actions_order + run_actions_sem: the state after interpreting the translated statement trace is World.runActions). Re-entrant side effects: Model/Nested.lean (callN), state = the same calls in sequence (callN_world_is_run). Every documented spelling of REQUIRE/ALLOW/FORBID_CALL (C++14, variadic _V, named, unnamed) is run by harness/spelling. Also regenerated and tied (Tie/NoMatch.lean): call_matcher::matches / match_conditions (verdict = parameters and all WITH predicates; exactly the predicates up to and including the first failing one are evaluated, none if a parameter rejects: match_conditions_tie, matches_tie), the member report_mismatch (sets `reported`, names the first failing WITH, evaluates no predicate beyond it: report_mismatch_member_eq/_tie), the free report_mismatch (lists every matching saturated expectation or else a Tried explanation of every active one: report_mismatch_free_eq/_tie), hook_last (newest first).',
         ref='DESIGN.md §4 C01', technique='Lean 4 proof (refinement of the find loop + case analysis of mock_func) + model/implementation correspondence'),
     'C05': dict(
         text='Theorems: sequence cost = number of pending satisfied predecessors (handleCost_eq_some_iff), eligibility characterisation '
@@ -54,7 +54,7 @@ CLAIMED = {
         text='Theorems: release reports exactly one non-fatal unfulfilled iff not reported, attached and count<lo (release_report, '
              'isUnfulfilled_iff), satisfied/reported/detached expectations are silent (satisfied_silent, reported_silent, detached_silent), '
              'mock destruction reports pending ones once and detaches all (decommission_spec), moves are silent, a released expectation '
-             'cannot report again (release_once). Over whole histories: at most one shortfall report per expectation whatever the order of releases, kills, moves, calls and listings, and none after it was flagged (shortfall_at_most_once, no_second_shortfall, Props/C04_History.lean). Second tie (translator): ~call_matcher, mock_destroyed, is_unfulfilled, report_missed, call_matcher_list::decommission regenerated from /repo\'s current source by tools/cxx2lean.py on every run and proved equal to the model definitions (*_order, is_unfulfilled_tie, release_sem, decommission_sem: the interpreted statement traces are World.releaseExp / World.decommission).',
+             'cannot report again (release_once). Over whole histories: at most one shortfall report per expectation whatever the order of releases, kills, moves, calls and listings, and none after it was flagged (shortfall_at_most_once, no_second_shortfall, Props/C04_History.lean). Second tie (translator): ~call_matcher, mock_destroyed, is_unfulfilled, report_missed, call_matcher_list::decommission regenerated from /repo\'s current source by tools/cxx2lean.py on every run and proved equal to the model definitions (*_order, is_unfulfilled_tie, release_sem, decommission_sem: the interpreted statement traces are World.releaseExp / World.decommission). Also regenerated and tied (Tie/NoMatch.lean): call_matcher::matches / match_conditions (verdict = parameters and all WITH predicates; exactly the predicates up to and including the first failing one are evaluated, none if a parameter rejects: match_conditions_tie, matches_tie), the member report_mismatch (sets `reported`, names the first failing WITH, evaluates no predicate beyond it: report_mismatch_member_eq/_tie), the free report_mismatch (lists every matching saturated expectation or else a Tried explanation of every active one: report_mismatch_free_eq/_tie), hook_last (newest first).',
         ref='DESIGN.md §4 C04', technique='Lean 4 proof (induction over the decommission loop) + model/implementation correspondence'),
     'C07': dict(
         text='Theorems: a call designated to a forbid is exactly one fatal forbidden report with that expectation and the arguments, no action, '
@@ -65,7 +65,7 @@ CLAIMED = {
     'C08': dict(
         text='Theorems: WITH clauses evaluated in order up to the first failing (with_short_circuit, matches_iff); side effects once each in '
              'order then RETURN/THROW once, or stop at the first throwing effect (actions_shape); full event log of an accepted call '
-             '(eval_log_shape); a throwing call still counts (throwing_call_counts); actions belong to the handler only (C02_frame). Re-entrant side effects (a SIDE_EFFECT calling a mock function): events of the nested call directly after the effect, remaining effects on the world it left, exceptions propagate (reentrant_effect_events); no nesting = plain call (no_reentrancy_is_plain_call). Second tie (translator): trompeloeil::mock_func regenerated from /repo\'s current source by tools/cxx2lean.py on every run and proved equal to the model definitions (mock_func_order: parameters traced before run_actions, return value last).',
+             '(eval_log_shape); a throwing call still counts (throwing_call_counts); actions belong to the handler only (C02_frame). Re-entrant side effects (a SIDE_EFFECT calling a mock function): events of the nested call directly after the effect, remaining effects on the world it left, exceptions propagate (reentrant_effect_events); no nesting = plain call (no_reentrancy_is_plain_call). Second tie (translator): trompeloeil::mock_func regenerated from /repo\'s current source by tools/cxx2lean.py on every run and proved equal to the model definitions (mock_func_order: parameters traced before run_actions, return value last). Also regenerated and tied (Tie/NoMatch.lean): call_matcher::matches / match_conditions (verdict = parameters and all WITH predicates; exactly the predicates up to and including the first failing one are evaluated, none if a parameter rejects: match_conditions_tie, matches_tie), the member report_mismatch (sets `reported`, names the first failing WITH, evaluates no predicate beyond it: report_mismatch_member_eq/_tie), the free report_mismatch (lists every matching saturated expectation or else a Tried explanation of every active one: report_mismatch_free_eq/_tie), hook_last (newest first).',
         ref='DESIGN.md §4 C08', technique='Lean 4 proof + model/implementation correspondence'),
     'C13': dict(
         text='Theorems: unexpected destruction iff no live requirement (unexpected_iff_none); with requirements alive nothing but sequence '
@@ -82,13 +82,13 @@ CLAIMED = {
              'callFn). Correspondence under ASan+LeakSanitizer+UBSan+TROMPELOEIL_SANITY_CHECKS: random permutations of destruction/move '
              'operations over populations of mocks/expectations/sequences/monitors/watched/tracers interleaved with calls and queries; a '
              'sanitizer abort is a violation. Partial: memory safety is proved for the reference structure of the model; that the C++ keeps no '
-             'other pointers is observed by the sanitizers on the explored histories. Re-entrant calls keep every invariant (reentrant_reachable, reentrant_WF). Second tie (translator): ~sequence_type (pending and retired handles detached), sequence_matcher::detach regenerated from /repo\'s current source by tools/cxx2lean.py on every run and proved equal to the model definitions (seq_dtor_eq, handle_detach_order).',
-        ref='DESIGN.md §4 C14', technique='Lean 4 proof (invariant by induction over all operations; simulation for move) + sanitizer-instrumented model/implementation correspondence'),
+             'other pointers is observed by the sanitizers on the explored histories. Re-entrant calls keep every invariant (reentrant_reachable, reentrant_WF). Second tie (translator): ~sequence_type (pending and retired handles detached), sequence_matcher::detach regenerated from /repo\'s current source by tools/cxx2lean.py on every run and proved equal to the model definitions (seq_dtor_eq, handle_detach_order). Layer below the lists (Props/C14_Ring.lean): the intrusive ring itself - list_elem<T>::unlink / ~list_elem / operator=(list_elem&&) / is_linked and list<T,Disposer>::push_front / push_back / begin / end / iterator++ / ~list - is modelled as a heap of next/prev pointers (Model/Ring.lean); for EVERY legal script of ring operations, any number of rings side by side, the heap represents the abstract lists (ring_refines_lists: invariant Rep by induction over the script), iterators see exactly the list forwards and backwards (iteration_is_list), is_linked is membership (isLinked_iff_member), after unlink no other address holds a pointer to the removed element (unlinked_unreferenced), ~list_elem of an unlinked element writes nothing (dtor_of_unlinked_is_noop), list(list&&) transfers the elements in order and leaves the source empty and every other list untouched (move_transfers_ring). Tie: the ten member functions are regenerated from /repo on every run (while loops with explicit fuel) and proved equal to the model operations (Tie/Ring.lean), and harness/ring/h_ring.cpp runs the real ring (ASan+UBSan+SANITY_CHECKS) against `tmodel ring` on systematic and random legal scripts, comparing both traversal directions, empty() and is_linked() after every operation. The caller obligations (an element is pushed only while on no list) are those the World invariant WF provides; that link is by inspection.',
+        ref='DESIGN.md §4 C14, §14', technique='Lean 4 proof (invariant by induction over all operations; simulation for move; heap-level refinement of the intrusive ring to lists) + sanitizer-instrumented model/implementation correspondence'),
     'C15': dict(
         text='Theorems: every report of a call is fatal, every report of any other operation non-fatal (call_reports_fatal, '
              'destructor_reports_nonfatal: case analysis over all 23 operations); structure of the no-match listing: saturated matches or '
              'else every live expectation newest first with rejecting parameters / first failing WITH (nomatch_listing, tried_entry, '
-             'failingParams_spec). Message wording beyond the parsed structure is not compared. Second tie (translator): sequence_type::validate_match regenerated from /repo\'s current source by tools/cxx2lean.py on every run and proved equal to the model definitions (validate_match_eq / validate_tie: silent iff callable, else the listing first-in-line ... first required).',
+             'failingParams_spec). Message wording beyond the parsed structure is not compared. Second tie (translator): sequence_type::validate_match regenerated from /repo\'s current source by tools/cxx2lean.py on every run and proved equal to the model definitions (validate_match_eq / validate_tie: silent iff callable, else the listing first-in-line ... first required). Also regenerated and tied (Tie/NoMatch.lean): call_matcher::matches / match_conditions (verdict = parameters and all WITH predicates; exactly the predicates up to and including the first failing one are evaluated, none if a parameter rejects: match_conditions_tie, matches_tie), the member report_mismatch (sets `reported`, names the first failing WITH, evaluates no predicate beyond it: report_mismatch_member_eq/_tie), the free report_mismatch (lists every matching saturated expectation or else a Tried explanation of every active one: report_mismatch_free_eq/_tie), hook_last (newest first).',
         ref='DESIGN.md §4 C15', technique='Lean 4 proof + model/implementation correspondence on parsed reports'),
     'C16': dict(
         text='Theorems: an accepted call yields exactly one OK naming the handler, a rejected one none (ok_exactly_one); no other operation '
